@@ -317,6 +317,8 @@ type c11SignCase struct {
 	// OpaqueAt >= 1: the signer of that slot minus one is a built-in ES256 signer over an opaque
 	// crypto.Signer whose DER signature is followed by two padding bytes (a PKCS#11-style buffer)
 	OpaqueAt int `json:"opaque_at,omitempty"`
+	// FailBytes: the failing signer returns bytes together with its error
+	FailBytes bool `json:"fail_bytes,omitempty"`
 }
 
 // trailingDERSigner wraps a real ECDSA key; its signatures carry trailing bytes.
@@ -340,6 +342,9 @@ func checkC11Sign(c c11SignCase) error {
 		sp := bridge.RefSigner(k, []byte("c11sign"))
 		if i == c.FailAt {
 			sp.Mode = bridge.SignErr
+			if c.FailBytes {
+				sp.Mode = bridge.SignPartial
+			}
 		}
 		if c.OpaqueAt == i+1 {
 			priv := refcose.KeyMat{Alg: refcose.AlgES256, D: rc.Hex("c11-opaque")}.Private().(*ecdsa.PrivateKey)
@@ -371,8 +376,11 @@ func checkC11Sign(c c11SignCase) error {
 		return finding("sign-error-lost", "Sign returned %v, not the failing signer's error", err)
 	}
 	_, encErr := m.MarshalCBOR()
-	if (err != nil || c.N == 0) && encErr == nil && filled != c.N {
-		return finding("encodes-half-signed", "a message for which Sign failed (%v) is encodable with %d of %d slots filled", err, filled, c.N)
+	if (err != nil || c.N == 0) && encErr == nil {
+		return finding("encodes-half-signed", "a message for which Sign failed (%v) is encodable (%d of %d slots hold bytes)", err, filled, c.N)
+	}
+	if c.FailAt >= 0 && c.Delta == 0 && c.FailAt < len(m.Signatures) && len(m.Signatures[c.FailAt].Signature) != 0 {
+		return finding("signature-stored-on-failure", "the slot of the failing signer %d holds %x", c.FailAt, m.Signatures[c.FailAt].Signature)
 	}
 	if c.N == 0 {
 		if encErr == nil {
@@ -417,12 +425,17 @@ func TestC11_SignSide(t *testing.T) {
 			}
 			for f := -1; f < n+d; f++ {
 				for op := 0; op <= n && (op == 0 || (d == 0 && f < 0)); op++ {
-					c := c11SignCase{N: n, Delta: d, FailAt: f, OpaqueAt: op}
-					cnt++
-					stats.Eval()
-					judge(t, "c11sign", c, checkC11Sign)
-					if cnt%9 == 0 {
-						stats.Sample("sign-side", c)
+					for _, fb := range []bool{false, true} {
+						if fb && f < 0 {
+							continue
+						}
+						c := c11SignCase{N: n, Delta: d, FailAt: f, OpaqueAt: op, FailBytes: fb}
+						cnt++
+						stats.Eval()
+						judge(t, "c11sign", c, checkC11Sign)
+						if cnt%9 == 0 {
+							stats.Sample("sign-side", c)
+						}
 					}
 				}
 			}
